@@ -58,7 +58,7 @@ def clean_old_builds(max_age_s=4 * 3600):
         pass
 
 
-def kani_cmd(filters, jobs, harness_timeout_s, exact=False, playback=False):
+def kani_cmd(filters, jobs, harness_timeout_s, exact=False, playback=False, cbmc_args=None):
     cmd = ["cargo", "kani", "-p", "ipa-core", "--lib", "--features", FEATURES,
            "-Z", "stubbing", "-Z", "unstable-options",
            "--harness-timeout", f"{int(harness_timeout_s)}s",
@@ -71,6 +71,8 @@ def kani_cmd(filters, jobs, harness_timeout_s, exact=False, playback=False):
         cmd += ["-Z", "concrete-playback", "--concrete-playback=print"]
     for f in filters:
         cmd += ["--harness", f]
+    if cbmc_args:
+        cmd += ["--cbmc-args"] + list(cbmc_args)  # must be last
     return cmd
 
 
@@ -201,9 +203,9 @@ def classify(r):
     return "error"
 
 
-def run_kani(filters, jobs, harness_timeout_s, mem_gb, exact=False, playback=False, overall_timeout=None, logname=None):
+def run_kani(filters, jobs, harness_timeout_s, mem_gb, exact=False, playback=False, overall_timeout=None, logname=None, cbmc_args=None):
     os.makedirs(WORK, exist_ok=True)
-    cmd = kani_cmd(filters, jobs, harness_timeout_s, exact=exact, playback=playback)
+    cmd = kani_cmd(filters, jobs, harness_timeout_s, exact=exact, playback=playback, cbmc_args=cbmc_args)
     t0 = time.time()
     import signal
     proc = subprocess.Popen(cmd, cwd=REPO, env=base_env(), stdout=subprocess.PIPE, stderr=subprocess.STDOUT,
@@ -316,7 +318,7 @@ def replay_file(pid, path):
 def get_counterexample(pid, harness, mem_gb, harness_timeout_s):
     """Re-run one failing harness with concrete playback; write the replay file."""
     r = run_kani([harness], 1, harness_timeout_s, mem_gb, exact=True, playback=True,
-                 logname=f"{pid}-playback-{sanitize(harness)}.log")
+                 logname=f"{pid}-playback-{sanitize(harness)}.log", cbmc_args=props.PROPS[pid].get("cbmc_args"))
     hr = r["results"].get(harness)
     if not hr or "playback" not in hr:
         return None
@@ -382,7 +384,7 @@ def run_property(pid, tier, seed, jobs, only=None, write_evidence=True):
     if only:
         filters = [only]
     log(f"[{pid}] tier={tier} filters={filters} jobs={jobs} harness-timeout={harness_timeout}s")
-    run = run_kani(filters, jobs, harness_timeout, mem_gb, logname=f"{pid}-{tier}.log")
+    run = run_kani(filters, jobs, harness_timeout, mem_gb, logname=f"{pid}-{tier}.log", cbmc_args=P.get("cbmc_args"))
     results = run["results"]
     meta = collect_metadata()
     smt = smt_run.run_for(pid, tier) if not only else {"queries": []}
